@@ -103,3 +103,36 @@ cfn("sparse_image.c:sparse_blob2Dproperties",
            1: ["forall(0, npk*NPROPERTY2D, lambda q: defined(res, q))"],
            2: ["forall(0, npk*NPROPERTY2D, lambda q: defined(res, q))"]},
     props=["C20"])
+
+# ---------------------------------------------------------------- walks over the row above (memory safety needs no sortedness)
+cfn("sparse_image.c:sparse_smooth", lens={"v": "nnz", "i": "nnz", "j": "nnz", "s": "nnz"},
+    defined={"s": False}, outputs={"s": "0..nnz"}, assigns=["s"], requires=["nnz >= 0"],
+    loops={0: ["forall(0, k, lambda t: defined(s, t))"],
+           1: ["forall(0, nnz, lambda t: defined(s, t))", "0 <= prow", "prow <= k", "isdef('prow')"],
+           2: ["forall(0, nnz, lambda t: defined(s, t))", "0 <= k", "k < nnz", "0 <= prow", "prow <= k", "isdef('prow')"],
+           3: ["forall(0, nnz, lambda t: defined(s, t))", "0 <= k", "k < nnz", "0 <= prow", "prow <= k", "0 <= p", "p < nnz",
+               "isdef('prow')", "isdef('p')"]},
+    props=["C20"])
+
+IMVR = "forall(0, %s, lambda t: And_(defined(iMV, t), defined(MV, t), 0 <= iMV[t], iMV[t] < nnz))"
+cfn("sparse_image.c:sparse_localmaxlabel",
+    lens={"v": "nnz", "i": "nnz", "j": "nnz", "MV": "nnz", "iMV": "nnz", "labels": "nnz"},
+    defined={"MV": False, "iMV": False, "labels": False}, outputs={"labels": "0..nnz"}, assigns=["MV", "iMV", "labels"],
+    requires=["nnz >= 0"],
+    loops={0: [IMVR % "k", "0 <= pp", "pp <= k", "isdef('pp')"],
+           1: [IMVR % "k + 1", "1 <= k", "k < nnz", "0 <= pp", "pp <= k", "isdef('pp')", "ir == i[k] - 1", "isdef('ir')"],
+           2: [IMVR % "k + 1", "1 <= k", "k < nnz", "0 <= pp", "pp <= k", "isdef('pp')",
+                                                    "ir == i[k] - 1", "isdef('ir')"],
+           3: [IMVR % "k + 1", "1 <= k", "k < nnz", "0 <= pp", "pp <= k", "isdef('pp')", "pp <= p", "p <= k",
+                                           "ir == i[k] - 1", "isdef('ir')"],
+           4: [IMVR % "nnz", "0 <= pp", "pp <= k", "isdef('pp')",
+                                  "forall(0, k, lambda t: And_(defined(labels, t), -1 <= labels[t], labels[t] <= pp))"],
+           5: [IMVR % "nnz", "forall(0, nnz, lambda t: defined(labels, t))"],
+           6: [IMVR % "nnz", "forall(0, nnz, lambda t: defined(labels, t))", "0 <= k", "k < nnz", "0 <= p", "p < nnz", "isdef('p')",
+                                "0 <= pnext", "isdef('pnext')"],
+           7: [IMVR % "nnz", "forall(0, nnz, lambda t: defined(labels, t))", "0 <= k", "k < nnz", "0 <= p", "p < nnz",
+                                  "isdef('p')"]},
+    ensures=["0 <= result", "result <= nnz"],
+    iteration_counters={"pnext++": "counts the steps of the walk `while (iMV[p] != p) p = iMV[p]`; it can only overflow if that walk "
+                                   "runs more than 2^31 steps, i.e. does not terminate (termination is not proved)"},
+    props=["C20"])
